@@ -144,6 +144,15 @@ def run(tier, seed):
         if c is not None and not torch.equal((x + c) - c, x):
             c = None            # the shift would not be exactly representable in float32: not comparable
         recs += real_records(x, mask, T, k, p, tanh, shift_c=c)
+    # deterministic family: LARGE but comparable logits (base +- a few units): the probabilities are ordinary
+    # (softmax is shift invariant) but any intermediate exp() of the raw values overflows float32 / underflows
+    for base in (95.0, 120.0, 1000.0, -1000.0, 30000.0):
+        offs = torch.tensor([[0.0, -0.5, -1.0, -3.0, -8.0, -0.25], [-2.0, 0.0, -0.125, -0.5, -6.0, -1.0]])
+        x = (base + offs).repeat(3, 1)
+        mask = torch.ones_like(x, dtype=torch.bool)
+        mask[2:4, 0] = False
+        for (T, k, p) in ((1.0, 0, 0.9), (1.0, 0, 0.5), (0.5, 3, 0.7), (2.0, 0, 0.95)):
+            recs += real_records(x, mask, T, k, p, 0.0, shift_c=-64.0 if torch.equal((x - 64.0) + 64.0, x) else None)
     fails, drifts, states, ended = validate_records("LogitsTrace", recs, INV_TRACE, "c10")
     viol = []
     for f in fails:
